@@ -131,7 +131,7 @@ func H02e() {
 	// a nonce that was used before
 	vAssert(r.s2sNonceStore().Put("x", true) == nil, "H02e.setup: cannot store nonce")
 
-	n := vLen(0, vParam("vps", 2))
+	n := vLen(0, vParam("e_vps", 2))
 	var specs []hC02EPres
 	env := &pe.Envelope{}
 	for i := 0; i < n; i++ {
